@@ -76,11 +76,24 @@ pub fn run_c07(ctx: &mut Ctx) {
         ctx.count(if cfg.reliable.is_some() { "c07.reliable-clients" } else { "c07.unreliable-clients" });
         // a third of the applications hand over attribute lists that already contain
         // credential / integrity attributes (cloned templates): they must be overridden
-        let p = Profile { rich_app: case % 3 == 0, ..p.clone() };
+        let mut cfg = cfg;
+        let mut p = Profile { rich_app: case % 3 == 0, ..p.clone() };
         if p.rich_app {
             ctx.count("c07.clients-with-prepopulated-attribute-lists");
         }
+        if case % 16 == 5 {
+            // many requests in flight at once, most of them answered badly, on a client whose
+            // outstanding-request limit was raised above the default (seeded change C07-A7: a bound on
+            // the number of protection-violated markers)
+            cfg.reliable = None;
+            cfg.max_transactions = *rng.pick(&[16usize, 24, 40]);
+            p = Profile { steps: (150, 300), max_concurrent: cfg.max_transactions, fault_pm: 850, silence_pm: 60, w_send: 45, w_deliver: 30, w_fire: 18, w_probe: 2, ..p };
+            ctx.count("c07.clients-with-raised-limit");
+        }
         if let Some(sim) = run_walk(ctx, rng, cfg, &p, &[]) {
+            if case % 16 == 5 {
+                ctx.count_n("c07.raised-limit.requests", sim.txs.len() as u64);
+            }
             sample_history(ctx, &sim, case);
             ctx.eval(Some(history_hash(&sim)));
         }
